@@ -542,5 +542,11 @@ func leakScan(w *nodeWorld, pid peer.ID) []leak {
 			add("connmgr.protection."+kind, strings.Join(prot, ","))
 		}
 	}
+	sort.Slice(out, func(i, j int) bool {
+		if out[i].where != out[j].where {
+			return out[i].where < out[j].where
+		}
+		return out[i].detail < out[j].detail
+	})
 	return out
 }
